@@ -770,7 +770,66 @@ def gen_num_case(rng):
     return {"kind": rng.choice(["num", "time"]), "n": -target - own, "own": own, "subs": subs}
 
 
+HOSTPOOL4 = ["0a000001", "0a000002", "0a000105", "c0a80064", "0a0000ff"]
+HOSTPOOL6 = ["fe800000000000000000000000000001", "fe800000000000000000000000000002", "20010db8000000000000000000000005"]
+
+
+def gen_host_case(rng):
+    ns = rng.randrange(2, 7)
+    streams = []
+    for _ in range(ns):
+        pool = HOSTPOOL6 if rng.random() < 0.3 else HOSTPOOL4
+        streams.append([rng.choice(pool), rng.choice(pool)])
+    m = rng.choice([None, None, 0, 0, 8, 24, 31, -8, 64])
+
+    def mask(nbits, m):
+        if m is None:
+            v = (1 << nbits) - 1
+        elif m >= 0:
+            mm = min(m, nbits)
+            v = ((1 << mm) - 1) << (nbits - mm)
+        else:
+            v = (1 << min(-m, nbits)) - 1
+        return "%0*x" % (nbits // 4, v)
+    nres = rng.randrange(1, 7)
+    vals = [rng.randrange(ns) for _ in range(nres)]
+    return {"kind": "host", "n": 0, "own": rng.randrange(ns), "streams": streams, "myserver": rng.random() < 0.5,
+            "otherserver": rng.random() < 0.5, "invert": rng.random() < 0.4, "mask4": mask(32, m), "mask6": mask(128, m),
+            "subs": [{"factor": 1, "vals": vals, "init": sorted(rng.sample(range(nres), rng.randrange(1, nres + 1)))}]}
+
+
+def gen_flag_case(rng):
+    mask = rng.choice([3, 3, 7])
+    nres = rng.randrange(1, 7)
+    pool = rng.choice([[1], [1, 2], [0, 1, 2, 3], [1, 1, 1, 2], list(range(8))])
+    vals = [rng.choice(pool) for _ in range(nres)]
+    return {"kind": "flag", "n": rng.choice([0, 0, 1, 2, 3]) & mask, "own": rng.choice(pool + [1, 2]), "mask": mask,
+            "subs": [{"factor": 1, "vals": vals, "init": sorted(rng.sample(range(nres), rng.randrange(1, nres + 1)))}]}
+
+
+def host_of(c, idx, server):
+    return c["streams"][idx][1 if server else 0]
+
+
 def num_oracle(c):
+    if c["kind"] == "host":
+        my = host_of(c, c["own"], c["myserver"])
+        msk = int(c["mask4"] if len(my) == 8 else c["mask6"], 16)
+        ok = []
+        for p in c["subs"][0]["init"]:
+            o = host_of(c, c["subs"][0]["vals"][p], c["otherserver"])
+            eq = len(o) == len(my) and (int(o, 16) ^ int(my, 16)) & msk == 0
+            if eq != c["invert"]:
+                ok.append(p)
+        return "1:" + ",".join(".%d" % p for p in sorted(ok)) if ok else "0:"
+    if c["kind"] == "flag":
+        m = c["mask"]
+        ok = [p for p in c["subs"][0]["init"] if ((c["own"] & m) ^ (c["subs"][0]["vals"][p] & m)) != (c["n"] & m)]
+        return "1:" + ",".join(".%d" % p for p in sorted(ok)) if ok else "0:"
+    return num_oracle_numeric(c)
+
+
+def num_oracle_numeric(c):
     """n + sum of the selected values >= 0 for some allowed combination; the allowed ones that satisfy it stay."""
     import itertools
     n = c["n"] + c["own"]
@@ -782,6 +841,19 @@ def num_oracle(c):
 def num_model_text(cases):
     lines = []
     for ci, c in enumerate(cases):
+        if c["kind"] == "host":
+            my = host_of(c, c["own"], c["myserver"])
+            zero = int(c["mask4"], 16) == 0 and int(c["mask6"], 16) == 0
+            lines.append("HOST %d %d %d %s %s" % (ci, c["invert"], zero, my, c["mask4"] if len(my) == 8 else c["mask6"]))
+            lines.append("others " + " ".join(host_of(c, v, c["otherserver"]) for v in c["subs"][0]["vals"]))
+            lines.append("init " + " ".join(map(str, c["subs"][0]["init"])))
+            continue
+        if c["kind"] == "flag":
+            m = c["mask"]
+            lines.append("FLAG %d %d %d" % (ci, c["own"] & m, c["n"] & m))
+            lines.append("others " + " ".join(str(v & m) for v in c["subs"][0]["vals"]))
+            lines.append("init " + " ".join(map(str, c["subs"][0]["init"])))
+            continue
         lines.append("NUM %d %d %d" % (ci, c["n"] + c["own"], len(c["subs"])))
         for s in c["subs"]:
             lines.append("vals " + " ".join(str(s["factor"] * v) for v in s["vals"]))
@@ -1022,7 +1094,9 @@ def main(tier, seed, replay=None):
         sel = [] if replay else [gen_sel_case(rng) for _ in range(300 if tier == "quick" else 3000)]
         if replay and "sel" in json.load(open(replay)):
             sel, pops = [json.load(open(replay))["sel"]], []
-        num = [] if replay else [gen_num_case(rng) for _ in range(400 if tier == "quick" else 4000)]
+        num = [] if replay else ([gen_num_case(rng) for _ in range(400 if tier == "quick" else 4000)] +
+                                 [gen_host_case(rng) for _ in range(200 if tier == "quick" else 1500)] +
+                                 [gen_flag_case(rng) for _ in range(200 if tier == "quick" else 1500)])
         if replay and "num" in json.load(open(replay)):
             num, pops = [json.load(open(replay))["num"]], []
         impl, model, bnote, bgo = execute(pops, exe, "main", sel=sel, num=num)
